@@ -26,6 +26,9 @@ mod sketch;
 mod store;
 mod ttl;
 pub(crate) mod utils;
+#[cfg(transparencies_stretto_verif)]
+#[allow(missing_docs)]
+pub mod verif;
 
 extern crate atomic;
 
